@@ -254,6 +254,12 @@ def run(r) -> None:
                 for sh in ("zero", "far"):
                     for ms in SETS:
                         cases.append(dict(dim=dim, kernel=kernel, dtype=dt, dx=lagcomm.DXS[1], ncomp=dim, mset=ms, seed=r.seed, shift=sh))
+    # spacings larger than one
+    for dim in (2, 3):
+        for kernel in ("cosine", "peskin"):
+            for dx in lagcomm.LARGE_DXS:
+                for ms in ("mixed", "spread-out"):
+                    cases.append(dict(dim=dim, kernel=kernel, dtype="float64", dx=dx, ncomp=dim, mset=ms, seed=r.seed))
     # marker-count alphabet, in particular counts EQUAL to the number of components (a (ncomp, N) field is then
     # square and a layout slip goes unnoticed by shape checks) and a single marker
     for dim in (2, 3):
@@ -269,6 +275,6 @@ def run(r) -> None:
     seqs = [dict(dim=dim, kernel=k, dtype=dt, ncomp=nc, dx_order=list(o)) for dim in (2, 3) for k in ("cosine", "peskin") for dt in ("float64", "float32") for nc in (1, dim)
             for o in itertools.permutations(lagcomm.DXS, 2)]
     r.run_cases("construction-sequences", "sequence", seqs)
-    r.bounds = {"marker_sets": SETS, "batch": lagcomm.N_BATCH, "dx": lagcomm.DXS[:1] if quick else lagcomm.DXS, "components": "1 and dim", "marker_counts": [1, 2, 3, lagcomm.N_BATCH], "grid_origins": lagcomm.SHIFTS, "history_depth": 3 if quick else 6}
+    r.bounds = {"marker_sets": SETS, "batch": lagcomm.N_BATCH, "dx": lagcomm.DXS[:1] if quick else lagcomm.DXS, "components": "1 and dim", "large_dx": lagcomm.LARGE_DXS, "marker_counts": [1, 2, 3, lagcomm.N_BATCH], "grid_origins": lagcomm.SHIFTS, "history_depth": 3 if quick else 6}
     r.extra["rule"] = "adjoint: one state per unit impulse (cell x component) and per unit force (marker x component); accumulation: BFS states = bytes of the target field"
     r.assumptions = ["numba closures (fastmath) driven directly; entries compared to 16 eps"]
